@@ -14,9 +14,12 @@ static SEEN: Mutex<Option<(Vec<String>, Vec<Option<String>>)>> = Mutex::new(None
 fn saw(params: Vec<String>, items: Vec<Option<String>>) -> &'static str { *SEEN.lock().unwrap() = Some((params, items)); "ran" }
 
 #[derive(Deserialize, Schema)] struct B { x: i32, s: String }
-#[derive(Deserialize, Schema)] struct Q { a: u32, b: Option<String> }
+#[derive(Deserialize, Schema)] struct Q { a: u32, b: Option<String>, #[serde(default)] t: Vec<u32> }
 fn eb(b: &B) -> String { hex(format!("x={};s={}", b.x, hex(b.s.as_bytes())).as_bytes()) }
-fn eq(q: &Q) -> String { hex(format!("a={};b={}", q.a, q.b.as_ref().map(|s| hex(s.as_bytes())).unwrap_or_else(|| "-".into())).as_bytes()) }
+fn eq(q: &Q) -> String { hex(format!("a={};b={};t={}", q.a, q.b.as_ref().map(|s| hex(s.as_bytes())).unwrap_or_else(|| "-".into()), q.t.iter().map(|x| x.to_string()).collect::<Vec<_>>().join(".")).as_bytes()) }
+// a query struct whose every field may be absent: a request without any query denotes the all-default value
+#[derive(Deserialize, Schema)] struct QO { b: Option<String>, #[serde(default)] t: Vec<u32> }
+fn eqo(q: &QO) -> String { hex(format!("b={};t={}", q.b.as_ref().map(|s| hex(s.as_bytes())).unwrap_or_else(|| "-".into()), q.t.iter().map(|x| x.to_string()).collect::<Vec<_>>().join(".")).as_bytes()) }
 fn et(t: &str) -> String { hex(t.as_bytes()) }
 // a multipart form: a text field, an optional file, any number of files
 #[derive(Deserialize)] struct MF<'a> { title: String, #[serde(borrow)] icon: Option<File<'a>>, #[serde(borrow)] pics: Vec<File<'a>> }
@@ -33,6 +36,7 @@ async fn h_cow(a: Cow<'_, str>) -> &'static str { saw(vec![format!("s:{}", hex(a
 async fn h_two((a, b): (u8, String)) -> &'static str { saw(vec![format!("i:{a}"), format!("s:{}", hex(b.as_bytes()))], vec![]) }
 async fn h_two2((a, b): (i64, &str)) -> &'static str { saw(vec![format!("i:{a}"), format!("s:{}", hex(b.as_bytes()))], vec![]) }
 async fn h_query(Query(q): Query<Q>) -> &'static str { saw(vec![], vec![Some(eq(&q))]) }
+async fn h_oquery(Query(q): Query<QO>) -> &'static str { saw(vec![], vec![Some(eqo(&q))]) }
 async fn h_json(JSON(b): JSON<B>) -> &'static str { saw(vec![], vec![Some(eb(&b))]) }
 async fn h_optjson(b: Option<JSON<B>>) -> &'static str { saw(vec![], vec![b.map(|JSON(b)| eb(&b))]) }
 async fn h_form(URLEncoded(b): URLEncoded<B>) -> &'static str { saw(vec![], vec![Some(eb(&b))]) }
@@ -73,7 +77,7 @@ fn app() -> ohkami::testing::TestingOhkami {
             "/p15".GET(h_query), "/p16".POST(h_json), "/p17".POST(h_optjson), "/p18".POST(h_form), "/p19".POST(h_text), "/p20/:a".POST(h_all), "/p23".POST(h_opts),
         ))),
         "/f".By(Ohkami::new((
-            "/p43".POST(h_multi), "/p44".POST(h_optmulti),
+            "/p43".POST(h_multi), "/p44".POST(h_optmulti), "/p45".GET(h_oquery),
         ))),
         "/q".By(Ohkami::new((
             "/p8/:a".GET(h_usize), "/p9/:a".GET(h_isize),
